@@ -19,6 +19,8 @@
 //   \t#HINT:piecewise         some Piecewise occurs in es
 //   \t#HINT:subs-node         some Subs / Derivative node occurs in es (or in an output)
 //   \t#HINT:nan               some NaN occurs in es (or in an output)
+//   \t#HINT:create-evaluates-on-symbols  some function node of es evaluates (create() gives another class)
+//                             once its arguments are abstracted by Symbols, e.g. atan2(A, A) with A = -3.0*b
 //   backsubst-crash:<sig> / backsubst-hang: cse returned, the library's subs() (or eq / expand) on its
 //   outputs did not (the back field of the section is then CRASH:<sig> / HANG)
 #include <symengine/basic.h>
@@ -79,6 +81,36 @@ static void walk(const RCP<const Basic> &b, std::set<std::string> &names, bool &
         pw = true;
     for (const auto &a : b->get_args())
         walk(a, names, reserved, pw);
+}
+
+// does some function node of b evaluate (create() returns another class) once its arguments are
+// abstracted by Symbols (equal arguments by the same Symbol)?  E.g. atan2(A, A) with A = -3.0*b or
+// zoo*E**x stays unevaluated (A/A is the float 1.0 / not 1), atan2(s, s) = pi/4.
+static bool create_evaluates_on_symbols(const RCP<const Basic> &b)
+{
+    vec_basic args = b->get_args();
+    const OneArgFunction *f1 = dynamic_cast<const OneArgFunction *>(b.get());
+    const TwoArgFunction *f2 = dynamic_cast<const TwoArgFunction *>(b.get());
+    const MultiArgFunction *fn = dynamic_cast<const MultiArgFunction *>(b.get());
+    if ((f1 or f2 or fn) and not args.empty()) {
+        vec_basic syms;
+        for (size_t i = 0; i < args.size(); i++) {
+            size_t j = 0;
+            while (j < i and not eq(*args[j], *args[i]))
+                j++;
+            syms.push_back(j < i ? syms[j] : RCP<const Basic>(symbol("_c37_arg" + std::to_string(i))));
+        }
+        try {
+            RCP<const Basic> r = f1 ? f1->create(syms[0]) : f2 ? f2->create(syms[0], syms[1]) : fn->create(syms);
+            if (r->get_type_code() != b->get_type_code())
+                return true;
+        } catch (...) {
+        }
+    }
+    for (const auto &a : args)
+        if (create_evaluates_on_symbols(a))
+            return true;
+    return false;
 }
 
 static std::string join_dumps(const vec_basic &v)
@@ -280,6 +312,11 @@ static std::string run_case(const std::string &line, bool isolate)
         orc += "\t#HINT:subs-node";
     if (out.find("(NaN)") != std::string::npos)
         orc += "\t#HINT:nan";
+    for (const auto &e : es)
+        if (create_evaluates_on_symbols(e)) {
+            orc += "\t#HINT:create-evaluates-on-symbols";
+            break;
+        }
     return out + orc;
 }
 
